@@ -220,12 +220,55 @@ fn bulk(si: usize, sc: &Value) -> Value {
            "not_in_spec_sequence": not_in_sequence, "sequence_members_not_issued": missing, "events": 0, "infeasible_steps": [], "schedule_len": 0})
 }
 
+/// free-running threads make `total` references in all: pairwise distinct, and (PidAlloc!RefWordsAreCounter) their words are
+/// exactly the counter values start .. start + 3n - 1, each once
+fn bulk_refs(si: usize, sc: &Value) -> Value {
+    let n = sc["threads"].as_u64().unwrap_or(1);
+    let total = sc["total"].as_u64().unwrap_or(1000);
+    let start = sc["start_ctr"].as_u64().unwrap_or(0) as u32;
+    let node = Arc::new(edp_node::Node::new("verif@127.0.0.1", "cookie"));
+    node.verif_reference_counter().store(start, Ordering::SeqCst);
+    let per = total / n;
+    let mut hs = Vec::new();
+    for _ in 0..n {
+        let nd = node.clone();
+        hs.push(std::thread::spawn(move || {
+            let mut v = Vec::with_capacity(per as usize);
+            for _ in 0..per {
+                let r = nd.make_reference();
+                v.push((r.ids.clone(), r.creation));
+            }
+            v
+        }));
+    }
+    let mut refs: Vec<(Vec<u32>, u32)> = Vec::new();
+    for h in hs {
+        refs.extend(h.join().unwrap_or_default());
+    }
+    let made = refs.len() as u64;
+    let wrong_shape = refs.iter().filter(|r| r.0.len() != 3).count();
+    let mut triples: Vec<Vec<u32>> = refs.iter().map(|r| r.0.clone()).collect();
+    triples.sort_unstable();
+    let dup = triples.windows(2).filter(|w| w[0] == w[1]).count();
+    let first_dup = triples.windows(2).find(|w| w[0] == w[1]).map(|w| json!(w[0]));
+    let mut words: Vec<u32> = refs.iter().flat_map(|r| r.0.iter().copied()).map(|w| w.wrapping_sub(start)).collect();
+    words.sort_unstable();
+    let consecutive = words.iter().enumerate().all(|(i, w)| *w as usize == i);
+    let first_off = words.iter().enumerate().find(|(i, w)| **w as usize != *i).map(|(i, w)| json!({"position": i, "word_relative_to_start": w}));
+    json!({"scenario": si, "bulk_refs": true, "threads": n, "made": made, "duplicates": dup, "first_duplicate": first_dup, "wrong_shape": wrong_shape,
+           "words_are_the_counter_values": consecutive, "first_deviation": first_off, "events": 0, "infeasible_steps": [], "schedule_len": 0})
+}
+
 pub fn run(args: &[String]) -> i32 {
     // pid-run <scenarios.ndjson> <trace-out.ndjson> <summary-out.ndjson>
     let scenarios = read_ndjson(&args[0]);
     let mut trace = NdWriter::create(&args[1]);
     let mut summary = NdWriter::create(&args[2]);
     for (si, sc) in scenarios.iter().enumerate() {
+        if sc["kind"].as_str() == Some("bulk_refs") {
+            summary.put(&bulk_refs(si, sc));
+            continue;
+        }
         if sc["kind"].as_str() == Some("bulk") {
             summary.put(&bulk(si, sc));
             continue;
